@@ -89,7 +89,7 @@ expect("arm return", violates("arm", "f:\n mov lr, r1\n bx lr\n", "abi-return-ad
 expect("arm write key", violates("arm", "f:\n str r1, [r0, #16]\n bx lr\n", "write-to-key"))
 expect("arm write outside", violates("arm", "f:\n str r1, [r0, #32]\n bx lr\n", "write-outside"))
 expect("arm read outside", violates("arm", "f:\n ldr r1, [r0, #32]\n bx lr\n", "read-outside"))
-expect("arm read below sp", violates("arm", "f:\n ldr r1, [sp, #-4]\n bx lr\n", "read-uninitialised-stack"))
+expect("arm read below sp", violates("arm", "f:\n ldr r1, [sp, #-4]\n bx lr\n", "access-below-stack-pointer"))
 expect("arm misaligned", violates("arm", "f:\n ldr r1, [r0, #2]\n bx lr\n", "misaligned-access"))
 expect("arm unknown", violates("arm", "f:\n mul r1, r2, r3\n bx lr\n", "unknown-mnemonic"))
 expect("arm fallthrough", violates("arm", "f:\n mov r1, r2\n", "fall-through"))
@@ -134,6 +134,8 @@ expect("rv64 slliw", w[1] == 0x08888888)
 expect("rv64 lw sign-extends, srli is 64-bit", w[2] == 0xF8444444)
 c = run("riscv", "f:\n lw a2, (a0)\n.L1:\n slli a2, a2, 1\n addi a1, a1, -1\n bne a1, zero, .L1\n sw a2, (a0)\n ret\n", rounds=4, kw={"xlen": 32})
 expect("rv loop", c.mem.state_words()[0] == (0x11111111 << 4) & 0xFFFFFFFF)
+expect("rv store below sp", violates("riscv", "f:\n sw s0, -4(sp)\n lw s0, -4(sp)\n ret\n", "access-below-stack-pointer", kw={"xlen": 32}))
+expect("arm store below sp", violates("arm", "f:\n str r4, [sp, #-4]\n ldr r4, [sp, #-4]\n bx lr\n", "access-below-stack-pointer"))
 expect("rv callee-saved", violates("riscv", "f:\n addi s1, a1, 1\n ret\n", "abi-callee-saved", kw={"xlen": 32}))
 expect("rv sp", violates("riscv", "f:\n addi sp, sp, -16\n ret\n", "abi-stack-pointer", kw={"xlen": 32}))
 expect("rv32e x16", violates("riscv", "f:\n addi a6, a1, 1\n ret\n", "not-encodable", kw={"xlen": 32, "rve": True}))
